@@ -564,6 +564,20 @@ def hex_string(expression: exp.Expression) -> exp.Expression:
     return expression
 
 
+def dollar_quoted_string(expression: exp.Expression) -> exp.Expression:
+    """Convert a dollar-quoted string constant to an ordinary string constant.
+
+    Nothing is escaped inside $$...$$, but sqlglot renders the raw string with every backslash doubled, which
+    duckdb (where a backslash is not an escape character) reads as two backslashes. As a string literal it is
+    rendered for duckdb with only its quotes doubled.
+    """
+
+    if isinstance(expression, exp.RawString):
+        return exp.Literal.string(expression.this)
+
+    return expression
+
+
 def identifier(expression: exp.Expression) -> exp.Expression:
     """Convert identifier function to an identifier.
 
